@@ -4,6 +4,7 @@ from __future__ import annotations
 import json
 import os
 import shutil
+import sys
 import tempfile
 import time
 
@@ -65,7 +66,9 @@ def run(tier, seed):
                 'addresses, unknown titles, quotes and backslashes and braces in literals, wrong arities, truncated and empty formulas); (3) unusual sheet titles x every '
                 'constant type; (4) nesting of brackets / IF / mixed functions to depth 12 with a step counter on CompositeBaseToken._get and a wall-clock bound; '
                 '(5) dependency chains of 50..2000 cells through the Parser facade; (6) class_file vs class_object executors on every cell; (7) the Lean interpreter '
-                'with the proved depth bound 6n+6 on the real token lists (never out of depth). distinct = distinct inputs')
+                'with the proved depth bound 6n+6 on the real token lists (never out of depth); (8) brackets / operator chains of every kind / signs / percents / nested '
+                'functions / argument lists of 30..3000 elements and numeric / text literals of up to 100000 characters, each through the Parser facade in a worker process '
+                'with a 60 s limit: class that loads and evaluates, or library exception. distinct = distinct inputs')
     chk.assumptions += ['wall-clock time and the interpreter recursion limit are runtime facts: termination and the depth bound are proved for the parser model, steps and time are '
                         'measured on the real code (partial for the "never hangs" clause)',
                         'exceptions raised when a member is EVALUATED (1/0, text arithmetic, …) are results of the formula, not of translation; only NameError / SyntaxError / '
@@ -129,7 +132,95 @@ def run(tier, seed):
     nesting(chk, tier)
     chains(chk, tier)
     file_vs_object(chk, rng)
+    deep(chk, tier)
     return chk.finish()
+
+
+def deep_cases(tier):
+    sizes = [60, 150, 199, 200, 201, 260, 400] if tier == 'quick' else [30, 60, 100, 150, 180, 195, 198, 199, 200, 201, 202, 210, 260, 330, 400, 700, 1200, 3000]
+    shapes = {
+        'brackets': lambda d: '=' + '(' * d + '1' + ')' * d,
+        'sum-chain': lambda d: '=' + '+'.join(['1'] * d),
+        'ref-chain': lambda d: '=' + '-'.join(['A1'] * d),
+        'mul-chain': lambda d: '=' + '*'.join(['2'] * d),
+        'div-chain': lambda d: '=' + '/'.join(['1'] * d),
+        'concat-chain': lambda d: '=' + '&'.join(['"a"'] * d),
+        'compare-chain': lambda d: '=' + '='.join(['1'] * d),
+        'mixed-chain': lambda d: '=' + ''.join('%d%s' % (i % 7 + 1, '+-*/&<'[i % 6]) for i in range(d)) + '1',
+        'signs': lambda d: '=' + '-' * d + '1',
+        'percents': lambda d: '=1' + '%' * d,
+        'if-nest': lambda d: '=' + 'IF(A1>0,' * d + '1' + ',2)' * d,
+        'fn-nest': lambda d: '=' + 'SUM(1,ROUND(' * d + '1' + ',1))' * d,
+        'args': lambda d: '=SUM(' + ','.join(['1'] * d) + ')',
+        'concat-args': lambda d: '=CONCATENATE(' + ','.join(['"a"'] * d) + ')',
+        'unclosed': lambda d: '=' + '(' * d + '1',
+    }
+    cases = [(name, d, mk(d)) for name, mk in shapes.items() for d in sizes]
+    literals = ['=0e999999999', '=0e' + '9' * 5000, '=1e999999999', '=1e-999999999', '=0.0e999999999', '=' + '1' * 310, '=' + '1' * 4300, '=' + '1' * 4301, '=' + '1' * 5000,
+                '=' + '0' * 5000, '=' + '0' * 5000 + '7', '=' + '0' * 5000 + '1e2', '=1e' + '0' * 5000 + '2', '=1e-' + '0' * 5000, '=' + '1' * 5000 + '.5', '=1.' + '1' * 5000,
+                '=0.' + '0' * 5000 + '1', '=' + '9' * 309, '=1' + '0' * 308, '=1' + '0' * 308 + 'e0', '=1e308', '=1.8e308', '=17976931348623158' + '0' * 292,
+                '="' + 'a' * 100000 + '"', '="' + '""' * 50000 + '"', '=' + ' ' * 100000 + '1', '=A' + '1' * 5000, '=' + 'A' * 5000 + '1', "='" + 'x' * 5000 + "'!A1"]
+    return cases + [('literal', i, f) for i, f in enumerate(literals)]
+
+
+def deep(chk, tier):
+    """deep nesting, long operator chains, huge literals: through the Parser facade in a worker process that is killed when one
+    workbook takes longer than the limit (a hang inside one C call cannot be interrupted in-process)"""
+    import subprocess
+    limit = 60
+    cases = deep_cases(tier)
+    env = dict(os.environ)
+    worker = [sys.executable, os.path.join(os.path.dirname(os.path.dirname(os.path.abspath(__file__))), 'c06_worker.py')]
+    proc = None
+    import select
+
+    def start():
+        return subprocess.Popen(worker, stdin=subprocess.PIPE, stdout=subprocess.PIPE, stderr=subprocess.DEVNULL, text=True, env=env)
+    try:
+        for name, d, f in cases:
+            if proc is None or proc.poll() is not None:
+                proc = start()
+            chk.count('deep:' + name)
+            chk.seen(('deep', name, d))
+            t0 = time.time()
+            proc.stdin.write(json.dumps({'formula': f}) + '\n')
+            proc.stdin.flush()
+            ready, _, _ = select.select([proc.stdout], [], [], limit)
+            short = f if len(f) < 120 else f[:60] + ' … ' + f[-30:] + ' (%d characters)' % len(f)
+            if not ready:
+                proc.kill()
+                proc.wait()
+                proc = None
+                chk.count('deep-outcome:hang')
+                chk.violation({'why': 'translation does not end within %d s' % limit, 'shape': name, 'size': d, 'formula': short, 'stream': 'deep-hang'})
+                continue
+            line = proc.stdout.readline()
+            if not line:
+                proc = None
+                chk.count('deep-outcome:crash')
+                chk.violation({'why': 'the interpreter died while translating / loading (stack overflow?)', 'shape': name, 'size': d, 'formula': short, 'stream': 'deep-crash'})
+                continue
+            out = json.loads(line)
+            dt = time.time() - t0
+            chk.info.setdefault('deep', {})['%s/%s' % (name, d)] = dict(out, seconds=round(dt, 2))
+            tr = out['translate']
+            chk.count('deep-outcome:' + (tr if tr != 'ok' else 'class'))
+            if tr != 'ok':
+                if tr[1:] not in LIB:
+                    chk.violation({'why': 'translation ends with a foreign exception', 'shape': name, 'size': d, 'formula': short, 'impl': tr, 'stream': 'deep-translate'})
+            elif out.get('load') != 'ok':
+                chk.violation({'why': 'the returned class does not load', 'shape': name, 'size': d, 'formula': short, 'impl': out.get('load'), 'stream': 'deep-load'})
+            elif out.get('evaluate', '').startswith('E') and out['evaluate'][1:] in BROKEN_AT_EVAL | {'RecursionError'}:
+                chk.violation({'why': 'the member of a deeply nested formula cannot be evaluated', 'shape': name, 'size': d, 'formula': short, 'impl': out.get('evaluate'),
+                               'stream': 'deep-evaluate'})
+    finally:
+        if proc is not None and proc.poll() is None:
+            try:
+                proc.stdin.close()
+            except Exception:
+                pass
+            proc.kill()
+            proc.wait()
 
 
 def titles_constants(chk, rng):
